@@ -19,6 +19,7 @@ func init() {
 			return []Oblig{
 				{Harness: "vh_C09_gate", Globals: g, Unroll: steps + 3},
 				{Harness: "vh_C09_execute", Globals: g, Unroll: steps + 3},
+				{Harness: "vh_C09_wrapper", Globals: map[string]int{"vhMaxSteps": 2, "vhNExec": 1}, Unroll: 6},
 			}
 		},
 		Bounds:      []string{"<= 4 (quick) / 6 (thorough) exec steps in total", "2/3 distinct exec closures per activation, any successor relation", "cancel instant: any logical clock value (one tick per run-id load)", "Execute with root, 2 init/main nodes"},
